@@ -27,6 +27,50 @@ func runC03(ctx *core.Ctx) {
 	totality(ctx, []*ssa.Function{parse, parseFile}, totalOpts{rule: "TOT"})
 
 	searchRules(ctx, parse)
+	ctx.Rule("FWD", "Format is the reference implementation: the package's Format does nothing but call golang.org/x/tools/txtar.Format on its argument and return the result", 1)
+	if fm := ctx.Need("FWD", "txtar", "Format"); fm != nil {
+		g := graph(ctx.P, fm)
+		ok := false
+		n := 0
+		g.Instrs(func(i ssa.Instruction) {
+			if c, isC := i.(*ssa.Call); isC {
+				n++
+				if ssax.CalleeName(&c.Call) == "golang.org/x/tools/txtar.Format" && c.Call.Args[0] == ssa.Value(fm.Params[0]) {
+					for _, r := range g.Returns() {
+						if ssax.ReturnValues(r)[0] == ssa.Value(c) {
+							ok = true
+						}
+					}
+				}
+			}
+		})
+		ctx.Check(ok && n == 1, "FWD", "txtar.Format#forward", fm.Pos(), "Format forwards to the reference implementation (calls in body: %d)", n)
+	}
+	ctx.Rule("UNTERM", "a marker on a last line without newline is still a marker: in the marker test the return that yields a name is not dominated by 'a newline was found' (the reference parser and Format/Parse stability require it)", 1)
+	ctx.Rule("NAME", "the marker name is the text between the delimiters with all surrounding white space removed by strings.TrimSpace (bytes.TrimSpace), as in the reference parser; the search's 'no name' test sees the trimmed name", 1)
+	for _, f := range reachableMod(ctx.P, []*ssa.Function{parse}, nil) {
+		g := graph(ctx.P, f)
+		// the marker test: a function returning (string, []byte) that tests HasPrefix and HasSuffix
+		if f.Signature.Results().Len() != 2 || len(g.Calls("bytes.HasSuffix", "strings.HasSuffix")) == 0 || len(g.Calls("bytes.HasPrefix", "strings.HasPrefix")) == 0 {
+			continue
+		}
+		for k, r := range g.Returns() {
+			v := ssax.ReturnValues(r)[0]
+			if s, isK := ssax.ConstString(v); isK && s == "" {
+				continue
+			}
+			nlFound := cmpFact(g.FactsAtInstr(r), token.GEQ, isCallOf([]string{"bytes.IndexByte", "strings.IndexByte", "bytes.Index"}), isConstIntV(0))
+			ctx.Check(!nlFound, "UNTERM", shortFn(f)+"#name-return"+itoa(k+1), r.Pos(), "the name-yielding return is reachable for a line without terminating newline")
+			c, isC := v.(*ssa.Call)
+			trimmed := isC && (ssax.CalleeName(&c.Call) == "strings.TrimSpace" || ssax.CalleeName(&c.Call) == "bytes.TrimSpace")
+			if cv, isCv := v.(*ssa.Convert); isCv {
+				if cc, ok := cv.X.(*ssa.Call); ok && ssax.CalleeName(&cc.Call) == "bytes.TrimSpace" {
+					trimmed = true
+				}
+			}
+			ctx.Check(trimmed, "NAME", shortFn(f)+"#name-trim"+itoa(k+1), r.Pos(), "the name is trimmed with TrimSpace (all Unicode white space, as the reference parser does)")
+		}
+	}
 
 	// PROG: find loops whose header phi is advanced by a bytes.Index result.
 	for _, f := range reachableMod(ctx.P, []*ssa.Function{parse}, nil) {
